@@ -67,6 +67,18 @@ Proof.
 Qed.
 Print Assumptions C07_no_order_sensitive_site_outside_findings.
 
+(* the class Sorted is backed by the source: the translator found a call into package sort after
+   the loop, in the same function, for every site classified Sorted (removing the sort call from
+   the source breaks this theorem on the next run) *)
+Theorem C07_sorted_sites_are_followed_by_a_sort :
+  forall s, In s map_sites -> class_of s = Some Sorted -> existsb (site_eqb s) sorted_after_sites = true.
+Proof.
+  assert (H : sorted_backed = true) by (vm_compute; reflexivity).
+  intros s Hs Hc. unfold sorted_backed in H. rewrite forallb_forall in H. specialize (H s Hs).
+  rewrite Hc in H. exact H.
+Qed.
+Print Assumptions C07_sorted_sites_are_followed_by_a_sort.
+
 (* the faithful model of "emit in map order" IS order sensitive: two entries suffice *)
 Theorem C07_emit_in_map_order_refuted :
   exists (l l' : list nat), Permutation l l' /\ (fun x => x) l <> (fun x => x) l'.
